@@ -123,6 +123,9 @@ type Conn struct {
 	rdl      int64 // virtual read deadline (noDeadline = none)
 	wdl      int64 // virtual write deadline (noDeadline = none)
 	writing  bool  // a Write is in progress (concurrent Writes are serialised, as on *net.TCPConn)
+	// RstCutAt is len(Sent) at the last Write that failed because the peer had reset / gone away
+	// (-1 = never): a message of which only a part was written before that is cut by the environment.
+	RstCutAt int
 }
 
 // Chunk is one logged write.
@@ -136,8 +139,8 @@ type Chunk struct {
 func (nw *Network) pair(libLocal, libRemote *net.TCPAddr, inbound bool) (lib, rem *Conn) {
 	id := len(nw.Conns) / 2
 	now := vrt.Cur().Now()
-	lib = &Conn{nw: nw, ID: id, Lib: true, local: libLocal, remote: libRemote, Inbound: inbound, Opened: now, ClosedAt: -1, rdl: noDeadline, wdl: noDeadline}
-	rem = &Conn{nw: nw, ID: id, Lib: false, local: libRemote, remote: libLocal, Inbound: inbound, Opened: now, ClosedAt: -1, rdl: noDeadline, wdl: noDeadline}
+	lib = &Conn{nw: nw, ID: id, Lib: true, local: libLocal, remote: libRemote, Inbound: inbound, Opened: now, ClosedAt: -1, rdl: noDeadline, wdl: noDeadline, RstCutAt: -1}
+	rem = &Conn{nw: nw, ID: id, Lib: false, local: libRemote, remote: libLocal, Inbound: inbound, Opened: now, ClosedAt: -1, rdl: noDeadline, wdl: noDeadline, RstCutAt: -1}
 	lib.peer, rem.peer = rem, lib
 	lib.obj = vrt.NewObj("conn-lib")
 	rem.obj = vrt.NewObj("conn-rem")
@@ -233,6 +236,7 @@ func (c *Conn) Write(p []byte) (int, error) {
 	// one Write at a time per connection
 	vrt.Wait("net.Conn.Write", "net-write-lock", func() bool { return !c.writing || c.closed || c.rst }, false, c.obj)
 	if c.closed {
+		c.noteCut()
 		return 0, &net.OpError{Op: "write", Net: "tcp", Source: c.local, Addr: c.remote, Err: net.ErrClosed}
 	}
 	c.writing = true
@@ -247,8 +251,10 @@ func (c *Conn) Write(p []byte) (int, error) {
 		}, false, c.obj, c.peer.obj)
 		switch {
 		case c.closed:
+			c.noteCut()
 			return written, &net.OpError{Op: "write", Net: "tcp", Source: c.local, Addr: c.remote, Err: net.ErrClosed}
 		case c.rst:
+			c.RstCutAt = len(c.Sent)
 			return written, &net.OpError{Op: "write", Net: "tcp", Source: c.local, Addr: c.remote, Err: syscall.EPIPE}
 		}
 		n := len(p) - written
@@ -281,9 +287,18 @@ func (c *Conn) Write(p []byte) (int, error) {
 	}
 }
 
+// noteCut records a write refused on a locally closed endpoint whose peer had already reset the connection
+// or gone away: like a write failing with EPIPE, it ends what the peer could ever have received.
+func (c *Conn) noteCut() {
+	if c.rst || c.peer.closed {
+		c.RstCutAt = len(c.Sent)
+	}
+}
+
 func (c *Conn) writeUnbounded(p []byte) (int, error) {
 	vrt.Wait("net.Conn.Write", "net-write", nil, false, c.obj, c.peer.obj)
 	if c.closed {
+		c.noteCut()
 		return 0, &net.OpError{Op: "write", Net: "tcp", Source: c.local, Addr: c.remote, Err: net.ErrClosed}
 	}
 	if c.wdl != noDeadline && vrt.Cur().Now() >= c.wdl {
@@ -291,6 +306,7 @@ func (c *Conn) writeUnbounded(p []byte) (int, error) {
 		return 0, &net.OpError{Op: "write", Net: "tcp", Source: c.local, Addr: c.remote, Err: os.ErrDeadlineExceeded}
 	}
 	if c.rst {
+		c.RstCutAt = len(c.Sent)
 		return 0, &net.OpError{Op: "write", Net: "tcp", Source: c.local, Addr: c.remote, Err: syscall.EPIPE}
 	}
 	b := append([]byte(nil), p...)
